@@ -57,6 +57,7 @@ Section Growth.
     (forall s e, grows s (eval_expr F n s e)) /\
     (forall s es, grows s (eval_args F n s es)) /\
     (forall s name vs, grows s (eval_call F n s name vs)) /\
+    (forall s fd vs, grows s (eval_fun F n s fd vs)) /\
     (forall s ls, grows s (eval_locals F n s ls)) /\
     (forall s ss, grows s (eval_block F n s ss)) /\
     (forall s st, grows s (eval_stmt F n s st)) /\
@@ -86,6 +87,8 @@ Section Growth.
         apply (grows_weaken _ s s1); [ ext_tac | apply H ]
     | H : forall s name vs, grows s (eval_call F ?n s name vs) |- grows ?s (eval_call F ?n ?s1 _ _) =>
         apply (grows_weaken _ s s1); [ ext_tac | apply H ]
+    | H : forall s fd vs, grows s (eval_fun F ?n s fd vs) |- grows ?s (eval_fun F ?n ?s1 _ _) =>
+        apply (grows_weaken _ s s1); [ ext_tac | apply H ]
     | H : forall s ls, grows s (eval_locals F ?n s ls) |- grows ?s (eval_locals F ?n ?s1 _) =>
         apply (grows_weaken _ s s1); [ ext_tac | apply H ]
     | H : forall s ss, grows s (eval_block F ?n s ss) |- grows ?s (eval_block F ?n ?s1 _) =>
@@ -112,10 +115,11 @@ Section Growth.
   Proof.
     induction n as [| n IH].
     - unfold grows_at; repeat split; intros; exact I.
-    - destruct IH as (He & Ha & Hc & Hl & Hb & Hs & Hw & Hf & Hfi).
+    - destruct IH as (He & Ha & Hc & Hfn & Hl & Hb & Hs & Hw & Hf & Hfi).
       unfold grows_at; repeat split; intros.
       + destruct e; simpl; gr.
       + destruct es; simpl; gr.
+      + simpl. gr.
       + simpl. gr.
       + destruct ls as [| [t e] ls]; simpl; gr.
       + destruct ss; simpl; gr.
@@ -127,7 +131,7 @@ Section Growth.
 
   Lemma form_step_ext : forall fuel s it s', form_step F fuel s it = Some s' -> ext s s'.
   Proof.
-    intros fuel s it s' H. destruct (grows_all fuel) as (He & _ & _ & _ & _ & Hs & _ & _ & _).
+    intros fuel s it s' H. destruct (grows_all fuel) as (He & _ & _ & _ & _ & _ & Hs & _ & _ & _).
     destruct it as [t e | t e | fd | st]; simpl in H.
     - pose proof (He (with_frame s []) e) as Hg.
       destruct (eval_expr F fuel (with_frame s []) e); try discriminate H.
